@@ -781,7 +781,8 @@ class PTensor(T):
 
 
 def pack_unpack(chk, src):
-    chk.rule("pack-unpack", "the variable-mean-field state vector is packed, differentiated and unpacked node by node in one order, each node restricted by the sector mask of that node", 4)
+    chk.rule("pack-unpack", "the variable-mean-field state vector is packed, differentiated and unpacked node by node in one order, each node restricted by the sector mask of that node; "
+             "the tangent-space projector and the inverse overlap of the node's own parent bond are applied to every node but the root", 6)
     ev = src.func(TEVO, "evolve_tdvp_vmf")
     td = src.func(TEVO, "time_derivative_vmf")
     ft = src.func(TREE, "TTNS.from_tensors")
@@ -801,18 +802,42 @@ def pack_unpack(chk, src):
                detail="the initial vector must be the masked entries of the node tensors in node_list order")
         # derivative
         b = w.interp.builtins
-        b["TTNEnviron"] = lambda *a: Sym("env", node_list=[Sym("enode", environ_parent=Blob("ovlp")) for _ in w.snodes])
+        class Ovlp(Sym):
+            """parent-bond overlap of one node (and its regularised inverse)"""
+            def reshape(self, *a):
+                return self
+
+            @property
+            def T(self):
+                return self
+        b["TTNEnviron"] = lambda ttns_, op_, *a: Sym("env", node_list=[Sym("enode", environ_parent=Ovlp(f"overlap above {n._name}", node=n._name, of=("identity" if op_ == "dummy" else "hamiltonian"))) for n in w.snodes])
         b["TTNO"] = Sym("TTNO", dummy=lambda basis: "dummy")
         b["hop_expr1"] = lambda node, *a: (lambda tensor: Deriv(node._name))
-        b["regularized_inversion"] = lambda *a: Blob("inv")
+        b["regularized_inversion"] = lambda m, *a: Ovlp(f"inverse of the {m._name}", node=getattr(m, "node", None), of=getattr(m, "of", None), inverted=True) if isinstance(m, Ovlp) else Blob("inv")
         b["xp"] = Blob("xp")
-        b["oe_contract"] = lambda *a: [x for x in a if isinstance(x, Deriv)][0]
+        b["asxp"] = lambda x: x
+        projections = {}
+
+        def contract(spec, *a):
+            d = [x for x in a if isinstance(x, Deriv)][0]
+            inv = [x for x in a if isinstance(x, Ovlp)]
+            projections[d.node] = [(x.node, x.of, getattr(x, "inverted", False)) for x in inv]
+            return d
+        b["oe_contract"] = contract
         b["np"] = Sym("np", concatenate=lambda l: l)
         w.ttns.__dict__["evolve_config"] = Blob("evolve_config")
         out = w.interp.call_function(td, [w.ttns, w.ttno])
         got = [(c.what.replace("deriv(", "").rstrip(")"), repr(c.mask)) if isinstance(c, Chunk) else repr(c) for c in out]
         chk.ob("pack-unpack", f"time_derivative_vmf emits [{topo}]", got == want, td.where, got, want, line=td.node.lineno,
                detail="derivative entries must line up with the packed state vector: same node order, same sector mask, derivative of that node")
+        # gauge: every node below the root is projected on the complement of its own tensor and multiplied by the inverse overlap of its own parent bond; the root keeps the
+        # full derivative (its component along the root tensor is the phase and the norm of the state)
+        rootname = w.snodes[0]._name if w.snodes[0].parent is None else [n._name for n in w.snodes if n.parent is None][0]
+        want_proj = {n._name: [(n._name, "identity", True)] for n in w.snodes if n._name != rootname}
+        chk.ob("pack-unpack", f"time_derivative_vmf gauge [{topo}]", projections == want_proj, td.where, {k_: v_ for k_, v_ in projections.items() if want_proj.get(k_) != v_} or "as expected",
+               "non-root nodes: projector and inverse overlap of their own parent bond (identity environment); root: unprojected", line=td.node.lineno,
+               detail="projecting the root's derivative removes the global phase exp(-i<H>t) (real time) and the norm decay (imaginary time) from the evolved state; a node projected with "
+                      "another node's overlap, or with the Hamiltonian environment, evolves in the wrong metric")
         # unpack
         w2 = World(src, topology=topo)
         stores = []
